@@ -34,6 +34,8 @@ type ruleState struct {
 	cycles        map[string]*cycleInfo
 	travs         map[int]*traversal
 	q0roots       map[string]bool
+	sweepReads    []*batchRead
+	dispatchReads []*batchRead
 	rootMoved     map[string]bool
 	fastSchedules map[string]bool
 	budgetCapped  bool
